@@ -52,29 +52,22 @@ impl SchemaConverter {
 
         // Emit aliases (enums)
         for (name, def_schema) in &alias_defs {
-            let prefixed = format!("{}{}", self.type_prefix, name);
+            let prefixed = self.type_name(name);
             self.emit_definition(&walker, &mut emitter, &prefixed, def_schema);
             emitter.blank_line();
         }
 
         // Emit classes from $defs
         for (name, def_schema) in &class_defs {
-            let prefixed = format!("{}{}", self.type_prefix, name);
+            let prefixed = self.type_name(name);
             self.emit_definition(&walker, &mut emitter, &prefixed, def_schema);
             emitter.blank_line();
         }
 
-        let mut root_type_name = "schema.root".to_string();
-        // Emit the root schema as a class
-        if let Some(title) = walker.root_title() {
-            root_type_name = format!("{}{}", self.type_prefix, title);
-            let root = walker.root_schema();
-            if root.get("properties").is_some() {
-                let prefixed = format!("{}{}", self.type_prefix, title);
-                self.emit_object_class(&walker, &mut emitter, &prefixed, root);
-                emitter.blank_line();
-            }
-        }
+        // Emit the root schema under its title (or `root`), so that the reported root type is always declared
+        let root_type_name = self.type_name(walker.root_title().unwrap_or("root"));
+        self.emit_definition(&walker, &mut emitter, &root_type_name, walker.root_schema());
+        emitter.blank_line();
 
         ConvertResult {
             annotation_text: emitter.finish(),
@@ -89,6 +82,25 @@ impl SchemaConverter {
     }
 
     // ── Internal helpers ──────────────────────────────────────────────
+
+    /// Prefixed class / alias name for a `$defs` key or a title. Characters that cannot be part of
+    /// a type name (spaces, quotes, ...) become `_`, the same way where the type is declared and used.
+    fn type_name(&self, name: &str) -> String {
+        let mut clean: String = name
+            .chars()
+            .map(|c| {
+                if c.is_alphanumeric() || c == '_' || c == '.' {
+                    c
+                } else {
+                    '_'
+                }
+            })
+            .collect();
+        if clean.is_empty() {
+            clean.push('_');
+        }
+        format!("{}{}", self.type_prefix, clean)
+    }
 
     /// Check if a schema definition is an enum/alias (not an object class).
     fn is_enum_or_alias(&self, schema: &Value) -> bool {
@@ -316,7 +328,7 @@ impl SchemaConverter {
         // $ref → type name with prefix
         if let Some(ref_str) = schema.get("$ref").and_then(|v| v.as_str()) {
             let name = SchemaWalker::ref_type_name(ref_str).unwrap_or("any");
-            return format!("{}{}", self.type_prefix, name);
+            return self.type_name(name);
         }
 
         // anyOf → union type (excluding null)
